@@ -134,12 +134,24 @@ ChainCells == { c \in [fam : {"chain"}, op : ChainOps, n : 2..4, bad : 1..4, lay
 ChainOpIdx(c) == IF c.bad <= 2 THEN 1 ELSE c.bad - 1
 ChainExpect(c) == [t |-> "located", code |-> (IF c.ty = "class" THEN 550 ELSE 551), opidx |-> ChainOpIdx(c)]
 
-Cells == BuiltinCells \cup DepthCells \cup SizeCells \cup SymCells \cup NameCells \cup ChainCells
+(***************************************************************************)
+(* a return type that is not allowed (errors.md E351: an array as return   *)
+(* value; E358: a type without a C equivalent in an `extern` signature) in *)
+(* a PUBLIC function of a module that another module imports: the          *)
+(* diagnostic points at the return type in the file that declares it,      *)
+(* whether the function has a body or not, whichever module is analysed    *)
+(* first (the importer sees the exported HEAD of the function).            *)
+(***************************************************************************)
+RetCells == [fam : {"rettype"}, what : {"array", "externbool"}, form : {"body", "head"}, order : {"single", "lib-first", "main-first", "main-uses"}]
+RetExpect(c) == [t |-> "located", code |-> (IF c.what = "array" THEN 351 ELSE 358)]
+
+Cells == BuiltinCells \cup DepthCells \cup SizeCells \cup SymCells \cup NameCells \cup ChainCells \cup RetCells
 Expect(x) == CASE x.fam = "builtin" -> BuiltinExpect(x)
                [] x.fam = "depth" -> DepthExpect(x)
                [] x.fam = "size" -> SizeExpect(x)
                [] x.fam = "names" -> NameExpect(x)
                [] x.fam = "chain" -> ChainExpect(x)
+               [] x.fam = "rettype" -> RetExpect(x)
                [] OTHER -> SymExpect(x)
 
 VARIABLE x
